@@ -91,13 +91,19 @@ class SphinxInventory:
                 payload = data
                 break
             data = parts[1]
+        decompressor = zlib.decompressobj()
         try:
-            decompressed = zlib.decompress(payload)
+            decompressed = decompressor.decompress(payload)
+            complete = decompressor.eof
         except zlib.error:
+            decompressed = b''
+            complete = False
+        if not complete:
             self.error(
                 'sphinx',
                 'Failed to uncompress inventory from %s' % (base_url,))
-            return ''
+            # Keep the complete lines that were recovered before the damage.
+            decompressed = decompressed[:decompressed.rfind(b'\n') + 1]
         try:
             return decompressed.decode('utf-8')
         except UnicodeError:
